@@ -4,7 +4,6 @@
   asserted by the harness on every recorded run of the real `algA` / `algD` / `choice`).  Core Lean only.
 -/
 import SparseV.Model.Create
-deriving instance DecidableEq for Except
 
 namespace SparseV
 namespace Spec
